@@ -37,7 +37,8 @@
    the command": an argument that is not hex is answered ERROR, state unchanged.
 
    C06 adds: disconnect on a first byte other than NUL, on a line longer than
-   16384 bytes, and instead of the sixth REJECTED ("after more than five
+   16384 bytes (also while it is still being received, see spec_stream), and
+   instead of the sixth REJECTED ("after more than five
    rejections").  Nothing is read after disconnecting; after BEGIN the bytes
    are messages. *)
 From Tx Require Import Lib.Base Model.AuthText.
@@ -212,7 +213,15 @@ Section Server.
     snd (server_lines (server_init sc) lines).
 
   (* The whole byte stream of a connection: a NUL byte, then lines ended by
-     \r\n; an unfinished line already longer than the limit disconnects too. *)
+     \r\n.  What follows the last \r\n is a line still being received.  It can
+     become an acceptable line only by growing and then being ended by \r\n, so
+     once it holds more than max_line + 1 bytes it is lost: at most its last byte
+     can be the \r of the delimiter, which leaves a line of more than max_line
+     bytes.  With exactly max_line + 1 bytes it may still be a line of max_line
+     bytes followed by the \r of its delimiter, and must be waited for.  So the
+     server disconnects on an unfinished remainder longer than max_line + 1 (it
+     may do so as early as that, or wait for the end of the line: no reply is
+     due in between, the observable behaviour is the same). *)
   Definition spec_stream (sc : list verdict) (stream : bytes) : list sevent :=
     match stream with
     | [] => []
@@ -222,7 +231,7 @@ Section Server.
           let (c, evs) := server_lines (server_init sc) (removelast fields) in
           match s_state c with
           | SAuthenticated | SDisconnected => evs
-          | _ => if max_line <? N.of_nat (length (last fields [])) then evs ++ [SDisconnect] else evs
+          | _ => if max_line + 1 <? N.of_nat (length (last fields [])) then evs ++ [SDisconnect] else evs
           end
         else [SDisconnect]
     end.
